@@ -226,7 +226,13 @@ def l3_const_fn(chk, ctx, rng, n):
             nus = [gen.loguniform(rng, 0.1, 10) for _ in range(d)]
             gam = [float(rng.uniform(-5, 5)) for _ in range(d)]
             hs = [float(rng.uniform(0, 1)) for _ in range(d)]
-            m = {(i, j): float(rng.uniform(0, 3)) for i in range(d) for j in range(d) if i != j}
+            m = {(i, j): (float(rng.uniform(0, 3)) if rng.random() < 0.7 else 0.0) for i in range(d) for j in range(d) if i != j}
+            if d > 1 and (it // 3) % 2 == 1:
+                # some populations receive no migrants at all (isolation), the others keep theirs
+                iso = [i for i in range(d) if rng.random() < 0.5] or [int(rng.integers(d))]
+                for i in iso:
+                    for j in range(d):
+                        if j != i: m[i, j] = 0.0
             th = float(rng.uniform(0.5, 2))
             if d == 1:
                 kw = dict(nu=nus[0], gamma=gam[0], h=hs[0], theta0=th)
@@ -392,7 +398,7 @@ def run(chk, ctx):
     k_kernel_programs(chk, ctx, common.Rng(ctx['seed'], 'C02-kernel-programs'), 1 if tier == 'quick' else 5)
     from .integ_common import k_program
     k_program(chk, ctx, common.Rng(ctx['seed'], 'C02-program'), 1 if tier == 'quick' else 4, tier, modes=('const', 'delj', 'delj-one', 'vary'))
-    l3_const_fn(chk, ctx, rng, 12 if tier == 'quick' else 60)
+    l3_const_fn(chk, ctx, rng, 24 if tier == 'quick' else 90)
     l3_nonneg(chk, ctx, rng, 15 if tier == 'quick' else 100)
     l3_layout(chk, ctx, rng, 12 if tier == 'quick' else 72)
     l3_default_grid(chk, ctx)
